@@ -201,7 +201,7 @@ func (g *gen) c11Base(hook bool) []Op {
 	for k := 0; k <= L; k++ {
 		np := 1
 		if g.thorough {
-			np = 2
+			np = 4
 		}
 		for j := 0; j < np; j++ {
 			pay := pays[(k+j+g.r.Intn(len(pays)))%len(pays)]
